@@ -29,42 +29,65 @@ from .common import find_node, rule
 PROP = "C10"
 READY = False
 TECHNIQUE = (
-    "shape extraction (uniquifier loop, slug string pipeline, regex tree, title join) from the MyST sources and from the "
-    "parsed mdit_py_plugins.anchors sources, compared as values; CFG guards/path counts for the depth limit and the "
-    "slug-function handler; positional kind agreement of the slug record between its writer and readers"
+    "shape extraction (uniquifier loop, slug string pipeline, regex tree, title gather) from the MyST sources and from the "
+    "parsed mdit_py_plugins.anchors sources, compared as values; CFG path/guard/dominance queries for the re-check of the "
+    "returned slug, the depth limit, the registry reset and the slug-function handler; call-graph following of package "
+    "helpers; positional kind agreement of the slug record between its writer and every reader"
 )
 
 META = {
     "explanation": (
-        "The same extractors are applied to MyST's compute_unique_slug/default_slugify and to the parsed source of "
-        "mdit_py_plugins.anchors.index (the code behind the myst-anchors command): R1 - the candidate rebuilt in the "
-        "`while cand in taken` loop is composed of a loop-invariant base, a separator and a counter, and (separator, first "
-        "suffix, step) equal the plugin's; whatever the uniquifier returns passed a `not in taken` edge after its last "
-        "definition on every CFG path; the registry handed to the uniquifier is the one the computed slug is recorded in and is "
-        "re-created (empty) on every path of a method that render() runs. "
-        "R2 - the regex (parsed tree, flags, replacement), the ordered str-method pipeline applied to the title, and the "
-        "title construction (join separator, attribute, token-type set, inline-token offset) agree with the plugin; the CLI "
-        "installs the plugin with the level it filters by, inclusively, builds its parser with the factory both front ends use, "
-        "overrides none of the configuration fields that factory reads and switches no syntax rule afterwards. R3 - slug computation is dominated by "
-        "`level <= heading_anchors`. R4 - the configured function replaces the default only when set, its call is under a "
-        "broad handler that issues exactly one HEADING_SLUG warning, stores nothing and cannot raise. R5 - the record "
-        "(LINE, ID, TITLE) is unpacked by every reader of the exported registry with the ID position flowing to refid / "
-        "make_refnode(targetid) and the TITLE position to text (tuple unpacking, record variables, .get, positional fields and "
-        ".items()/.values() loops are followed). R6 - in the '#anchor' resolver a table consulted before the slug table is "
-        "filled only under docutils' explicit flag: implicit section names never pre-empt a slug."
+        "Six rules, each a structural necessary condition of the statement; the same extractors run on MyST's code and on the "
+        "parsed source of mdit_py_plugins/anchors/index.py (the code behind the myst-anchors command), and values - never text - "
+        "are compared. "
+        "R1 uniquifier: (d) every value compute_unique_slug can return is a name that crossed a `name not in taken` edge on every "
+        "CFG path after its last definition (a string assembled in the return statement, a one-shot suffix, a bounded retry or a "
+        "counter fast path violate it); (a) the candidate rebuilt in the loop is <base><separator><counter> with a base that has "
+        "no definition inside the loop; (b) (separator, first suffix, step) equal the plugin's; (c) the registry handed to the "
+        "uniquifier is the one that receives `[slug] = record`; (e) that registry is assigned an empty dict on every path of a "
+        "method that render() always runs (not only in __init__). "
+        "R2 agreement with the plugin: (a) the slug regex as a parsed tree with canonical character-class order, flags and "
+        "replacement; (b) the ordered str-method pipeline of the default slug function (locals inlined, idempotent duplicates "
+        "collapsed, strip/lower commute); (c) the title is gathered - as a comprehension, an append/join loop, a `+=` loop or in a "
+        "package helper - from the same attribute of the same token types of the `.children` of the inline token at the same "
+        "offset, that gather is the only source of the title, and the slug function is applied to it; (d) the CLI installs the "
+        "plugin with the level it filters by (inclusive), its output filter tests heading-ness and depth only, it builds its parser "
+        "through the factory family both front ends use with no tokenisation-relevant configuration field overridden, and switches "
+        "no syntax rule afterwards (the command's helpers in cli.py are followed). "
+        "R3 the slug computation is dominated by a fact equivalent to level <= heading_anchors (guards at the call sites one level "
+        "up are accepted). "
+        "R4 the configured slug function wins when set and is called; the call is under except Exception/BaseException/bare; "
+        "all paths through that handler issue exactly one HEADING_SLUG warning (helpers that warn on all their paths are "
+        "followed), no other warning, store nothing into the registry or node['slug'], and cannot raise. "
+        "R5 the record stored per slug is classified by its expressions (LINE, ID, TITLE); every reader of every publication "
+        "channel of the registry (document attribute, env.metadata key, per-document map in an attribute) takes fields out by "
+        "tuple unpacking, record variable, .get, positional index or .items()/.values() loops; the ID position must reach an id "
+        "sink (['refid'], make_refnode targetid, refid=/targetid= keywords), only the TITLE position a text sink, also through "
+        "package helpers and `a or b` / conditional copies. "
+        "R6 in the function that resolves '#anchor' links from the slug table, any table consulted earlier is filled - in place or "
+        "in the helper that returns it - only under docutils' explicit flag (value of nametypes.items() or nametypes[name]): "
+        "implicit section names, which derive from the same titles as the slugs, never pre-empt a slug."
     ),
     "not_decided": (
-        "actual slug values for concrete titles; equality of rendered anchors and CLI output per document (needs the documents); "
-        "behaviour of a user-supplied slug function; headings whose level was shifted by an include's heading-offset (the CLI "
-        "does not process includes); explicit targets shadowing a slug of the same name (C09)"
+        "actual slug values for concrete titles and per-document equality of rendered anchors with the CLI output (needs the "
+        "documents); behaviour of a user-supplied slug function; headings whose level was shifted by an include's heading-offset "
+        "(the CLI does not process includes); explicit targets that deliberately shadow a slug of the same name (documented "
+        "priority, C09); how the configuration values heading_anchors / heading_slug_func reach the renderer (validation and "
+        "file-level merge: C13); survival of the published slug table across Sphinx parallel workers (C15); the warning issued "
+        "for a missing cross-document anchor (C12); the CLI is compared with a default-configured render only (it cannot see conf.py)"
     ),
     "trusted_base": [
         "CPython ast and re._parser",
         "the installed mdit_py_plugins/anchors/index.py as the oracle for the documented GitHub rule",
+        "the engine's call graph (helper following) and CFG (guards, dominance, path counts)",
     ],
     "assumptions": [
         "markdown-it gives heading_open/inline/heading_close triples, so index 1 of to_tokens() is the inline token",
         "str.strip and str.lower commute (case mapping never creates or removes white space)",
+        "docutils' document.nametypes maps a name to True exactly for explicit targets",
+        "config fields that create_md_parser (and its wrappers) read are the ones that can change tokenisation; words_per_minute "
+        "only feeds the word-count plugin (re-verified on every run)",
+        "a MarkdownIt object may be used for more than one render (the registry must therefore be reset per render)",
     ],
 }
 
@@ -109,11 +132,23 @@ def _alias_closure(names: set[str], fi: FunctionInfo) -> set[str]:
     while changed:
         changed = False
         for n in fi.local_nodes():
-            if isinstance(n, ast.Assign) and isinstance(n.value, ast.Name) and n.value.id not in out:
-                if any(isinstance(t, ast.Name) and t.id in out for t in n.targets):
-                    out.add(n.value.id)
-                    changed = True
+            if isinstance(n, ast.Assign) and any(isinstance(t, ast.Name) and t.id in out for t in n.targets):
+                for nm in _value_names(n.value):
+                    if nm not in out:
+                        out.add(nm)
+                        changed = True
     return out
+
+
+def _value_names(e: ast.expr) -> set[str]:
+    """Names whose value ``e`` can evaluate to: a name, or the arms of `a or b` / `x if c else y`."""
+    if isinstance(e, ast.Name):
+        return {e.id}
+    if isinstance(e, ast.BoolOp):
+        return set().union(*(_value_names(v) for v in e.values))
+    if isinstance(e, ast.IfExp):
+        return _value_names(e.body) | _value_names(e.orelse)
+    return set()
 
 
 # ---------------------------------------------------------------------------
@@ -389,12 +424,37 @@ def _recheck_clause(corpus: Corpus, cus: FunctionInfo, rep: Report) -> bool:
         return out
 
     bad = False
+    # every value a return statement can yield: conditional expressions are split into their arms
+    yielded: list[tuple[ast.Return, ast.expr]] = []
     for r in rets:
-        k = f"{cus.fq}|returned slug was tested against the registry"
+        work = [r.value]
+        while work:
+            e = work.pop()
+            if isinstance(e, ast.IfExp):
+                work += [e.body, e.orelse]
+            elif isinstance(e, ast.BoolOp):
+                work += list(e.values)
+            elif e is not None:
+                yielded.append((r, e))
+    k0 = f"{cus.fq}|returned slug was tested against the registry"
+    for r, val in yielded:
+        k = k0 if len(yielded) == 1 else f"{k0}|{short(val, 30)}"
         site = cus.module.site(r)
-        if not isinstance(r.value, ast.Name):
-            raise Unsupported(f"{site}: the uniquifier returns an expression, not a tested name: {short(r.value, 40)}")
-        var = r.value.id
+        if isinstance(val, (ast.JoinedStr, ast.BinOp)) or (isinstance(val, ast.Call) and isinstance(val.func, ast.Attribute) and val.func.attr in ("format", "join")):
+            # a string assembled in the return statement itself has no name under which it could have been tested
+            bad = True
+            rep.violation(
+                "C10.R1",
+                k,
+                site,
+                f"`{short(val, 50)}` is built and returned at once, without ever being tested against `{taken}`: a heading can receive an anchor that another heading "
+                "(for example one literally titled like the suffixed form) already owns",
+                [f"{site} return {short(r.value, 60)}"],
+            )
+            continue
+        if not isinstance(val, ast.Name):
+            raise Unsupported(f"{site}: the uniquifier returns an expression, not a tested name: {short(val, 40)}")
+        var = val.id
         sink: ast.AST = r
         for _ in range(4):  # `result = uniq; return result`: judge the copied name at the copy
             ds = _assigns_to(cus, var)
@@ -1014,12 +1074,45 @@ def r2_sibling_agreement(corpus: Corpus, rep: Report, tier: str):
     sel = _sel
     tname = fp["title_name"]
     k = f"{cus.fq}|slug function applied to the joined title"
+
+    def is_title(e: ast.expr) -> bool:
+        return bool((tname and isinstance(e, ast.Name) and e.id == tname) or (fp["title_expr"] is not None and e is fp["title_expr"]))
+
     for call in sel["calls"]:
-        ok = len(call.args) == 1 and not call.keywords and ((tname and isinstance(call.args[0], ast.Name) and call.args[0].id == tname) or (fp["title_expr"] is not None and call.args[0] is fp["title_expr"]))
-        if ok:
+        if len(call.args) != 1 or call.keywords:
+            raise Unsupported(f"{cus.module.site(call)}: call form of the slug function not understood")
+        arms = [call.args[0]]
+        while any(isinstance(a_, ast.IfExp) for a_ in arms):
+            arms = [x for a_ in arms for x in ([a_.body, a_.orelse] if isinstance(a_, ast.IfExp) else [a_])]
+        foreign = [a_ for a_ in arms if not is_title(a_)]
+        if not foreign:
             rep.ok("C10.R2", k, cus.module.site(call))
+        elif len(arms) > 1 and any(is_title(a_) for a_ in arms) and not (tname and tname in _names(foreign[0])):
+            rep.violation(
+                "C10.R2", f"{cus.fq}|title has a single source|{short(foreign[0], 40)}", cus.module.site(call),
+                f"on some headings the slug is computed from `{short(foreign[0], 50)}` instead of the joined {sorted(a['types'])} children: the plugin (myst-anchors) always uses the join",
+            )
         else:
             raise Unsupported(f"{cus.module.site(call)}: argument of the slug function is not the joined title")
+    # every definition of the title is that join
+    tfn = cus  # the title name lives in compute_unique_slug, also when a helper builds the title
+    if tname is not None:
+        join_stmt = parent(fp["title_expr"]) if fp["title_expr"] is not None else None
+        for d in _assigns_to(tfn, tname):
+            if d is join_stmt:
+                continue
+            if fp["title_expr"] is None and ((isinstance(d, ast.Assign) and isinstance(d.value, ast.Constant) and d.value.value == "") or (isinstance(d, ast.AugAssign) and enclosing_loop(d, tfn) is fp["join"])):
+                continue  # accumulation form: initialisation and the `+=` inside the gather loop
+            val = d.value
+            if val is None:
+                continue
+            if tname in _names(val):
+                raise Unsupported(f"{tfn.module.site(d)}: the title is post-processed before slugging (`{short(d, 50)}`); agreement with the plugin not decided")
+            rep.violation(
+                "C10.R2", f"{cus.fq}|title has a single source|{short(val, 40)}", tfn.module.site(d),
+                f"the title is also taken from `{short(val, 50)}`: the plugin (myst-anchors) builds it only by joining the {sorted(a['types'])} children of the inline token, "
+                "so headings that take this path (e.g. with entities, escapes or typographic replacements, whose raw source differs from the text tokens) get a different anchor",
+            )
     # (d) CLI
     _r2_cli(corpus, rep, sib)
     rep.expect_min("C10.R2", 9, "regex, pipeline ops, six title fields, CLI level")
@@ -1029,7 +1122,16 @@ def _r2_cli(corpus: Corpus, rep: Report, sib: Module) -> None:
     cli = corpus.mod("cli")
     pa = cli.func("print_anchors")
     rep.saw_function(pa.fq)
-    fam = [f for q, f in cli.functions.items() if q == "print_anchors" or q.startswith("print_anchors.")]
+    # the command and the functions of the module it (transitively) calls, with their nested functions / lambdas
+    g_ = get_callgraph(corpus)
+    tops = [pa]
+    for _ in range(2):
+        for t0 in list(tops):
+            for _call, targets in g_.callees(t0):
+                for t in g_.flat_targets(targets):
+                    if t.module is cli and not t.is_lambda and t.parent_func is None and t.cls is None and t not in tops:
+                        tops.append(t)
+    fam = [f for q, f in cli.functions.items() if any(q == t.qualname or q.startswith(t.qualname + ".") for t in tops)]
     uses = []
     for f in fam:
         body = f.node.body if f.is_lambda else f.node
@@ -1095,7 +1197,11 @@ def _r2_cli(corpus: Corpus, rep: Report, sib: Module) -> None:
         rep.violation("C10.R2", k, cli.site(cmp_), "; ".join(problems))
     else:
         rep.ok("C10.R2", k, cli.site(cmp_), f"max_level={mx_text}, filter level <= {unparse(other)}")
-    _r2_cli_tokeniser(corpus, rep, cli, pa, fam, use)
+    _r2_cli_filter_conjuncts(rep, cli, pa, ff, cmp_)
+    bf = uf
+    while bf.parent_func is not None:
+        bf = bf.parent_func
+    _r2_cli_tokeniser(corpus, rep, cli, pa, fam, use, bf)
 
 
 # fields the parser factory reads that cannot change a token (re-verified on every run)
@@ -1154,9 +1260,61 @@ def _field_default(corpus: Corpus, fld: str):
     raise Unsupported(f"MdParserConfig has no field {fld}")
 
 
-def _r2_cli_tokeniser(corpus: Corpus, rep: Report, cli: Module, pa: FunctionInfo, fam: list[FunctionInfo], use: ast.Call) -> None:
+def _r2_cli_filter_conjuncts(rep: Report, cli: Module, pa: FunctionInfo, ff: FunctionInfo, cmp_: ast.Compare) -> None:
+    """The renderer anchors every heading within the depth; the CLI's output filter may test heading-ness and depth only."""
+    k = f"{pa.fq}|CLI filter keeps every heading within the depth"
+    # the comprehension (or if statement) whose condition contains the depth comparison
+    holder = None
+    n: ast.AST | None = cmp_
+    while n is not None and n is not ff.node:
+        q = parent(n)
+        if isinstance(q, ast.comprehension) and any(n is i or n in ast.walk(i) for i in q.ifs):
+            holder = q
+            break
+        n = q
+    if holder is None or not isinstance(holder.target, ast.Name):
+        rep.note("C10.R2: CLI heading filter is not a comprehension condition; extra conditions not judged")
+        return
+    tok = holder.target.id
+    conj: list[ast.expr] = []
+    for i in holder.ifs:
+        conj.extend(i.values if isinstance(i, ast.BoolOp) and isinstance(i.op, ast.And) else [i])
+    if not any(c is cmp_ for c in conj):
+        raise Unsupported(f"{cli.site(cmp_)}: the depth comparison is not a top-level conjunct of the CLI filter")
+    extra = []
+    for c in conj:
+        if c is cmp_:
+            continue
+        attrs = {x.attr for x in ast.walk(c) if isinstance(x, ast.Attribute) and isinstance(x.value, ast.Name) and x.value.id == tok}
+        if not attrs:
+            if tok in _names(c):
+                raise Unsupported(f"{cli.site(c)}: CLI filter condition on the token not understood: {short(c, 50)}")
+            raise Unsupported(f"{cli.site(c)}: CLI filter depends on `{short(c, 40)}`, which is not a property of the token")
+        if attrs <= {"type"}:
+            lits = [x.value for x in ast.walk(c) if isinstance(x, ast.Constant) and isinstance(x.value, str)]
+            if lits and all(v.startswith("heading_") for v in lits) and not any(isinstance(x, (ast.Not, ast.NotEq, ast.NotIn)) for x in ast.walk(c)):
+                continue  # selects heading tokens
+            raise Unsupported(f"{cli.site(c)}: token-type test of the CLI filter not understood: {short(c, 50)}")
+        if attrs <= {"type", "tag"}:
+            raise Unsupported(f"{cli.site(c)}: a second tag/depth test in the CLI filter is not understood: {short(c, 50)}")
+        extra.append((c, sorted(attrs - {"type", "tag"})))
+    if extra:
+        c, attrs = extra[0]
+        rep.violation(
+            "C10.R2",
+            k,
+            cli.site(c),
+            f"myst-anchors additionally drops headings by `{short(c, 60)}` (token attribute {', '.join(attrs)}); the renderer gives every heading within the depth an anchor "
+            "(also one nested in a block quote or list item, rendered as a rubric), so anchors assigned during rendering are missing from the listing",
+        )
+    else:
+        rep.ok("C10.R2", k, cli.site(cmp_), "conditions: heading token type and depth only")
+
+
+def _r2_cli_tokeniser(corpus: Corpus, rep: Report, cli: Module, pa: FunctionInfo, fam: list[FunctionInfo], use: ast.Call, bf: FunctionInfo | None = None) -> None:
     """The CLI must tokenise the file as a default-configured render does: same factory, default config, no rule switched."""
     g = get_callgraph(corpus)
+    bf = bf or pa
     # the factory the two front ends use
     fronts = [corpus.func("parsers.docutils_:Parser.parse"), corpus.func("parsers.sphinx_:MystParser.parse")]
     factories = set()
@@ -1177,7 +1335,7 @@ def _r2_cli_tokeniser(corpus: Corpus, rep: Report, cli: Module, pa: FunctionInfo
     # configuration object onwards build the same parser
     family = _factory_closure(corpus, factory)
     calls = []
-    for call, targets in g.callees(pa):
+    for call, targets in g.callees(bf):
         for t in g.flat_targets(targets):
             if not t.is_lambda and t.params and set(_factory_closure(corpus, t)) & set(family):
                 calls.append((call, targets))
@@ -1188,7 +1346,7 @@ def _r2_cli_tokeniser(corpus: Corpus, rep: Report, cli: Module, pa: FunctionInfo
     pvar = use.func.value
     if not calls:
         if isinstance(pvar, ast.Name):
-            ds = _assigns_to(pa, pvar.id)
+            ds = _assigns_to(bf, pvar.id)
             if len(ds) == 1 and isinstance(ds[0], ast.Assign) and isinstance(ds[0].value, ast.Call):
                 full = cli.resolve(dotted(ds[0].value.func) or "")
                 if full.startswith("markdown_it."):
@@ -1204,7 +1362,7 @@ def _r2_cli_tokeniser(corpus: Corpus, rep: Report, cli: Module, pa: FunctionInfo
     rep.saw_call(cli.site(fcall))
     carg = arg_or_kw(fcall, 0, factory.params[0])
     if isinstance(carg, ast.Name):
-        ds = _assigns_to(pa, carg.id)
+        ds = _assigns_to(bf, carg.id)
         if len(ds) != 1 or not isinstance(ds[0], ast.Assign):
             raise Unsupported(f"{cli.site(fcall)}: configuration `{carg.id}` is not assigned exactly once")
         carg = ds[0].value
@@ -2052,6 +2210,27 @@ def _explicit_only(f: FunctionInfo, store: ast.AST, table: str) -> tuple[str, st
     return ("bad", f"every name in `{short(it, 40)}` is entered, whether docutils marks it explicit or not")
 
 
+def _table_fills(corpus: Corpus, f: FunctionInfo, table: str, depth: int = 2) -> list[tuple[FunctionInfo, ast.Assign, str]]:
+    """(function, `T[...] = ...` statement, T) for every place the local table is filled: in ``f`` itself, or in the
+    package helper whose returned dict it is bound to."""
+    out = [
+        (f, x, table)
+        for x in f.local_nodes()
+        if isinstance(x, ast.Assign) and any(isinstance(t, ast.Subscript) and isinstance(t.value, ast.Name) and t.value.id == table for t in x.targets)
+    ]
+    if out or depth <= 0:
+        return out
+    ds = _assigns_to(f, table)
+    if len(ds) == 1 and isinstance(ds[0], (ast.Assign, ast.AnnAssign)) and isinstance(ds[0].value, ast.Call):
+        for h in _package_helpers(corpus, f, ds[0].value):
+            rets = [r for r in walk_local(h.node) if isinstance(r, ast.Return)]
+            names = {r.value.id for r in rets if isinstance(r.value, ast.Name)}
+            if not rets or len(names) != 1 or not all(isinstance(r.value, ast.Name) for r in rets):
+                raise Unsupported(f"{h.fq}: helper that builds `{table}` does not return one local table")
+            out.extend(_table_fills(corpus, h, names.pop(), depth - 1))
+    return out
+
+
 @rule("C10.R6")
 def r6_slug_preemption(corpus: Corpus, rep: Report, tier: str):
     rep.rule("C10.R6", "in the '#anchor' resolver only explicit targets may pre-empt the slug lookup (implicit section names are derived from the same titles as the slugs)")
@@ -2084,17 +2263,18 @@ def r6_slug_preemption(corpus: Corpus, rep: Report, tier: str):
                         if table is None:
                             raise Unsupported(f"{f.module.site(e)}: a branch resolves the link before the slug lookup on a test that is not a table membership: {short(e.test, 50)}")
                         k = f"{f.fq}|slug lookup pre-empted by `{table}`"
-                        sites = [x for x in f.local_nodes() if isinstance(x, ast.Assign) and any(isinstance(t, ast.Subscript) and isinstance(t.value, ast.Name) and t.value.id == table for t in x.targets)]
-                        if not sites:
+                        fills = _table_fills(corpus, f, table)
+                        if not fills:
                             raise Unsupported(f"{f.module.site(e)}: cannot see how `{table}` is filled")
-                        verdicts = [_explicit_only(f, x, table) for x in sites]
+                        sites = [x for _h, x, _t in fills]
+                        verdicts = [_explicit_only(h_, x, t_) for h_, x, t_ in fills]
                         bad = [(x, v) for x, v in zip(sites, verdicts) if v[0] == "bad"]
                         if bad:
                             x, v = bad[0]
                             rep.violation(
                                 "C10.R6",
                                 k,
-                                f.module.site(x),
+                                fills[sites.index(x)][0].module.site(x),
                                 f"`{table}` is consulted before the heading slugs, but {v[1]}. Implicit section names are the normalised heading titles, so an anchor that equals "
                                 "another heading's title (`# a`, `# a`, `# a-1`: '#a-1') resolves to that other heading instead of its own",
                                 [f"{f.module.site(e)} if {short(e.test, 50)}: refid from `{table}`; continue", f"{f.module.site(s_if)} if {short(s_if.test, 40)}: refid from the slug record"],
@@ -2148,6 +2328,14 @@ def mutants(corpus: Corpus):
         rets = [r for r in walk_local(cus.node) if isinstance(r, ast.Return) and isinstance(r.value, ast.Name) and r.value.id == sh["cand"]]
         if rets and sh["base"] != sh["cand"]:
             out.append(Mutant("c10-uniq-returns-base", "C10.R1", base.rel, splice(src, rets[-1].value, sh["base"]), expect="tested against the registry"))
+    if sh is not None:
+        # class "fast path hands out a string that was never probed against the registry"
+        pre = [d for d in _assigns_to(cus, sh["cand"]) if d.lineno < sh["loop"].lineno]
+        if pre:
+            d0 = pre[-1]
+            ind = " " * d0.col_offset
+            fast = f'if {sh["base"]} in {sh["taken"]}:\n{ind}    return f"{{{sh["base"]}}}{sh["sep"]}{{len(list({sh["taken"]}))}}"\n{ind}'
+            out.append(Mutant("c10-uniq-fast-path-untested", "C10.R1", base.rel, splice(src, d0, fast + segment(src, d0)), expect="tested against the registry"))
     # class "the registry outlives the document": initialised once / reset only on some paths
     for fi, call in _cus_call_sites(corpus):
         reg = arg_or_kw(call, 1, "slugs")
@@ -2203,12 +2391,31 @@ def mutants(corpus: Corpus):
         tm_ = fp["owner"].module
         out.append(Mutant("c10-title-includes-html-inline", "C10.R2", tm_.rel, splice(tm_.src, tn, '["text", "code_inline", "html_inline"]'), expect="token types"))
         out.append(Mutant("c10-title-drops-code-inline", "C10.R2", tm_.rel, splice(tm_.src, tn, '["text"]'), expect="token types"))
+        # class "the title has a second source besides the children join"
+        tname = fp["title_name"]
+        tstmt = parent(fp["title_expr"]) if fp["title_expr"] is not None else None
+        itok = None
+        for n in walk_local(cus.node):
+            if isinstance(n, ast.Attribute) and n.attr == fp["collection"] and isinstance(n.value, ast.Name):
+                itok = n.value.id
+        if tname and isinstance(tstmt, ast.Assign) and fp["owner"] is cus and itok:
+            ind = " " * tstmt.col_offset
+            out.append(Mutant("c10-title-fallback-raw-content", "C10.R2", base.rel, splice(src, tstmt, segment(src, tstmt) + f"\n{ind}if not {tname}:\n{ind}    {tname} = {itok}.content"), expect="single source"))
+            if sel["calls"]:
+                c0 = sel["calls"][0]
+                out.append(Mutant("c10-title-raw-content-when-plain", "C10.R2", base.rel, splice(src, c0.args[0], f"{tname} if len({itok}.children or []) != 1 else {itok}.content"), expect="single source"))
     cli = corpus.mod("cli")
     for q, f in cli.functions.items():
         if q.startswith("print_anchors") and not f.is_lambda:
             cmp_ = find_node(f, lambda n: isinstance(n, ast.Compare) and "tag" in unparse(n.left) and isinstance(n.ops[0], ast.LtE))
             if cmp_ is not None:
                 out.append(Mutant("c10-cli-filter-strict", "C10.R2", cli.rel, splice(cli.src, cmp_, f"{segment(cli.src, cmp_.left)} < {segment(cli.src, cmp_.comparators[0])}"), expect="CLI"))
+            if cmp_ is not None:
+                # class "the CLI's output filter tests more than heading-ness and depth"
+                tk = [x.value.id for x in ast.walk(cmp_) if isinstance(x, ast.Attribute) and x.attr == "tag" and isinstance(x.value, ast.Name)]
+                if tk:
+                    out.append(Mutant("c10-cli-filter-top-level-only", "C10.R2", cli.rel, splice(cli.src, cmp_, f"{segment(cli.src, cmp_)} and {tk[0]}.level == 0"), expect="every heading within the depth"))
+                    out.append(Mutant("c10-cli-filter-skips-hidden", "C10.R2", cli.rel, splice(cli.src, cmp_, f"{segment(cli.src, cmp_)} and not {tk[0]}.hidden"), expect="every heading within the depth"))
             use = find_node(f, lambda n: isinstance(n, ast.Call) and isinstance(n.func, ast.Attribute) and n.func.attr == "use" and kwarg(n, "max_level") is not None)
             if use is not None:
                 out.append(Mutant("c10-cli-max-level-default", "C10.R2", cli.rel, splice(cli.src, kwarg(use, "max_level"), "2"), expect="CLI"))
